@@ -5,7 +5,7 @@
    Conventions of the model (Model/C04_Dens.v): a parameter is a list of length 1 (scalar, broadcast by
    `bc n`) or n; `fixed` selects the repaired (true) or the unrepaired (false) formula of the defects
    that have a fix proposal; lnGamma enters through its value G = Gamma(shape) > 0. *)
-From CV Require Import Base.Tac Base.Cmp Model.C04_Dens Model.C04_Cdf Proofs.C04_Cdf Proofs.C04_Cdf2 Proofs.C04_Beta Proofs.C04_Lim Proofs.C04_InvGamma Proofs.C04_Refine Proofs.C04_GammaLaw Proofs.C04_Dens Proofs.C04_Gauss Proofs.C04_Norm Proofs.C04_More Proofs.C04_Sym Proofs.C04_Box Proofs.C04_GaussInt Proofs.C04_BoxNormal Proofs.C04_GaussDoc Proofs.C04_Slap Proofs.C04_CdfNd.
+From CV Require Import Base.Tac Base.Cmp Model.C04_Dens Model.C04_Cdf Proofs.C04_Cdf Proofs.C04_Cdf2 Proofs.C04_Beta Proofs.C04_Lim Proofs.C04_InvGamma Proofs.C04_Refine Proofs.C04_GammaLaw Proofs.C04_Dens Proofs.C04_Gauss Proofs.C04_Norm Proofs.C04_More Proofs.C04_Sym Proofs.C04_Box Proofs.C04_GaussInt Proofs.C04_BoxNormal Proofs.C04_GaussDoc Proofs.C04_Slap Proofs.C04_CdfNd Proofs.C04_GaussBox.
 From Coq Require Import QArith Reals Lra.
 From Coquelicot Require Import Coquelicot.
 Local Open Scope R_scope.
@@ -324,15 +324,18 @@ Print Assumptions C04_gaussian_scalar_documented.
    normal density mvn_pdf n dcov quad = (2 pi)^(-n/2) det(Sigma)^(-1/2) exp(-quad/2); which (dcov, quad) belong to a matrix M in a given
    parameterisation is what the exact certificate states (C04_gaussian_dense_cert_sound; the four readings denote one distribution by
    Props/C04_mc.v, and C04_list_model_quad_refinement links the list functions to the matrix statement) *)
-Theorem C04_gaussian_dense_documented : forall (n : nat) (dcov quad : R), 0 < dcov ->
-  gauss_canon n (ln dcov) quad = ln (mvn_pdf n dcov quad).
-Proof. exact gauss_dense_ln_pdf. Qed.
-Print Assumptions C04_gaussian_dense_documented.
 
-Theorem C04_gaussian_dense_documented_prec : forall (n : nat) (dprec dcov quad : R), 0 < dprec -> dprec * dcov = 1 ->
-  gauss_canon n (- ln dprec) quad = ln (mvn_pdf n dcov quad).
-Proof. exact gauss_dense_ln_pdf_prec. Qed.
-Print Assumptions C04_gaussian_dense_documented_prec.
+Theorem C04_gaussian_dense_documented :
+  (forall (n : nat) (dcov quad : R), 0 < dcov ->
+  gauss_canon n (ln dcov) quad = ln (mvn_pdf n dcov quad)) /\
+  (forall (n : nat) (dprec dcov quad : R), 0 < dprec -> dprec * dcov = 1 ->
+  gauss_canon n (- ln dprec) quad = ln (mvn_pdf n dcov quad)).
+Proof.
+  split.
+  - exact gauss_dense_ln_pdf.
+  - exact gauss_dense_ln_pdf_prec.
+Qed.
+Print Assumptions C04_gaussian_dense_documented.
 
 Theorem C04_gaussian_dense_cert_sound : forall (f : gform) (n : nat) (M : list (list Q)) (y d : list Q) (dcov quad : Q) (r : nat),
   gauss_dense_cert f n M y d dcov quad r = true ->
@@ -505,16 +508,19 @@ Print Assumptions C04_normalised_partial.
    `is_box_int f box v` (Proofs/C04_Box.v): the iterated integral of f : list R -> R over the box [a1,b1] x ... x [an,bn] exists at
    every level and equals v (it is unique: C04_box_int_unique).  The integrand of every theorem below is exp (the model's logpdf),
    i.e. the function the correspondence cells evaluate; parameters are scalar-broadcast or vectors (bc), every n (induction on n). *)
-Theorem C04_box_int_unique : forall (f : list R -> R) (box : list (R * R)) (v w : R),
-  is_box_int f box v -> is_box_int f box w -> v = w.
-Proof. exact is_box_int_unique. Qed.
-Print Assumptions C04_box_int_unique.
 
 (* ... and it determines the iterated RInt (Coquelicot's total integral function), first coordinate outermost *)
-Theorem C04_box_int_is_iterated_RInt : forall (f : list R -> R) (box : list (R * R)) (v : R),
-  is_box_int f box v -> box_RInt f box = v.
-Proof. exact is_box_int_RInt. Qed.
-Print Assumptions C04_box_int_is_iterated_RInt.
+Theorem C04_box_int_unique :
+  (forall (f : list R -> R) (box : list (R * R)) (v w : R),
+  is_box_int f box v -> is_box_int f box w -> v = w) /\
+  (forall (f : list R -> R) (box : list (R * R)) (v : R),
+  is_box_int f box v -> box_RInt f box = v).
+Proof.
+  split.
+  - exact is_box_int_unique.
+  - exact is_box_int_RInt.
+Qed.
+Print Assumptions C04_box_int_unique.
 
 (* the Fubini step for product densities, every n and every parameter type *)
 Theorem C04_box_int_product : forall (A : Type) (k : A -> R -> R) (ms : A -> R * R -> R) (ps : list A) (box : list (R * R)),
@@ -526,29 +532,25 @@ Proof. exact @box_int_product. Qed.
 Print Assumptions C04_box_int_product.
 
 (* Normal (= Gaussian with scalar / vector / diagonal covariance, C04_gaussian_diag_documented): the mass of EVERY box is the product
-   of the cdf differences (FULL) *)
-Theorem C04_normal_box_mass : forall (mean std : list R) (box : list (R * R)),
-  (length mean = 1%nat \/ length mean = length box) -> (length std = 1%nat \/ length std = length box) ->
-  Forall (fun s => 0 < s) std ->
-  is_box_int (fun xs => exp (normal_logpdf mean std xs)) box
-    (rprod (map (ls_mass1 normal_cdf1) (combine (zip2 (bc (length box) mean) (bc (length box) std)) box))).
-Proof. exact normal_box_mass. Qed.
-Print Assumptions C04_normal_box_mass.
+   of the cdf differences (FULL): first part of C04_normal_normalised_nd below *)
 
-Theorem C04_cauchy_box_mass : forall (loc scale : list R) (box : list (R * R)),
+
+(* ... and over the boxes prod [loc_i - T, loc_i + T] it tends to 1: the n-dimensional Cauchy density integrates to one (FULL) *)
+Theorem C04_cauchy_normalised_nd :
+  (forall (loc scale : list R) (box : list (R * R)),
   (length loc = 1%nat \/ length loc = length box) -> (length scale = 1%nat \/ length scale = length box) ->
   Forall (fun s => 0 < s) scale ->
   is_box_int (fun xs => exp (cauchy_logpdf loc scale xs)) box
-    (rprod (map (ls_mass1 cauchy_cdf1) (combine (zip2 (bc (length box) loc) (bc (length box) scale)) box))).
-Proof. exact cauchy_box_mass. Qed.
-Print Assumptions C04_cauchy_box_mass.
-
-(* ... and over the boxes prod [loc_i - T, loc_i + T] it tends to 1: the n-dimensional Cauchy density integrates to one (FULL) *)
-Theorem C04_cauchy_normalised_nd : forall (loc scale : list R) (n : nat), Forall (fun s => 0 < s) scale ->
+    (rprod (map (ls_mass1 cauchy_cdf1) (combine (zip2 (bc (length box) loc) (bc (length box) scale)) box)))) /\
+  (forall (loc scale : list R) (n : nat), Forall (fun s => 0 < s) scale ->
   is_lim (fun T => rprod (map (ls_mass1 cauchy_cdf1)
                               (combine (zip2 (bc n loc) (bc n scale)) (centred_box2 T (zip2 (bc n loc) (bc n scale))))))
-         p_infty 1.
-Proof. exact cauchy_centred_normalised. Qed.
+         p_infty 1).
+Proof.
+  split.
+  - exact cauchy_box_mass.
+  - exact cauchy_centred_normalised.
+Qed.
 Print Assumptions C04_cauchy_normalised_nd.
 
 (* Laplace (scalar scale, location scalar or vector): mass of prod [loc_i - T, loc_i + T] is (1 - exp(-T/b))^n, which tends to 1 (FULL) *)
@@ -567,53 +569,36 @@ Theorem C04_uniform_normalised_nd : forall (fixed : bool) (n : nat) (low high : 
 Proof. exact uniform_box_normalised. Qed.
 Print Assumptions C04_uniform_normalised_nd.
 
-(* Gamma with integer shapes k_i + 1 (lnGamma(k+1) = ln k!), rates r_i: mass of (0,T)^n = product of the 1-d cdfs -> 1 (FULL) *)
-Theorem C04_gamma_int_normalised_nd : forall ps : list (nat * R), Forall (fun p => 0 < snd p) ps ->
-  (forall T, 0 < T ->
-     is_box_int (fun xs => exp (gamma_logpdf (map gamma_int_g ps) (map gamma_int_shape ps) (map snd ps) xs))
-                (map (fun _ => (0, T)) ps) (rprod (map (fun p => gamma_int_cdf1 (fst p) (snd p) T) ps))) /\
-  is_lim (fun T => rprod (map (fun p => gamma_int_cdf1 (fst p) (snd p) T) ps)) p_infty 1.
-Proof. intros ps H. split; [intros T HT; apply gamma_int_box_mass; assumption | apply gamma_int_box_normalised; exact H]. Qed.
-Print Assumptions C04_gamma_int_normalised_nd.
+(* Gamma with integer shapes k_i + 1 (lnGamma(k+1) = ln k!), rates r_i: mass of (0,T)^n = product of the 1-d cdfs -> 1 (FULL):
+   C04_gamma_int_normalised_nd below, together with the n-dimensional cdf statement *)
 
-(* Beta with integer parameters (a_i + 1, b_i + 1): exp(logpdf) integrates to one over (0,1)^n (FULL) *)
-Theorem C04_beta_int_normalised_nd : forall ps : list (nat * nat),
-  is_box_int (fun xs => exp (beta_logpdf (map beta_int_ga ps) (map beta_int_gb ps) (map beta_int_gab ps)
-                                         (map beta_int_alpha ps) (map beta_int_beta ps) xs))
-             (map (fun _ => (0, 1)) ps) 1.
-Proof. exact beta_int_box_normalised. Qed.
-Print Assumptions C04_beta_int_normalised_nd.
+(* Beta with integer parameters (a_i + 1, b_i + 1): exp(logpdf) integrates to one over (0,1)^n (FULL): C04_beta_int_normalised_nd below *)
 
 (* InverseGamma with integer shapes (k_i + 1), locations l_i, scales s_i: its integer-shape density is the documented one, its cdf
    integrates it over every interval of the support, and exp(logpdf) over prod (l_i + 1/T, l_i + T) has mass -> 1 (FULL) *)
-Theorem C04_invgamma_int_pdf_documented : forall (k : nat) (l sc x : R), l < x -> 0 < sc ->
-  invgamma_int_pdf k l sc x = invgamma_pdf1 (INR (fact k)) (INR (S k)) l sc x.
-Proof. exact invgamma_int_pdf_doc. Qed.
-Print Assumptions C04_invgamma_int_pdf_documented.
 
-Theorem C04_invgamma_cdf_integral : forall (k : nat) (l sc a b : R), l < a -> a <= b ->
-  is_RInt (invgamma_int_pdf k l sc) a b (invgamma_int_cdf1 k l sc b - invgamma_int_cdf1 k l sc a).
-Proof. exact invgamma_int_cdf_is_integral. Qed.
-Print Assumptions C04_invgamma_cdf_integral.
 
-Theorem C04_invgamma_int_normalised_nd : forall ps : list (nat * R * R), Forall (fun p => 0 < snd p) ps ->
+Theorem C04_invgamma_int_normalised_nd :
+  (forall (k : nat) (l sc x : R), l < x -> 0 < sc ->
+  invgamma_int_pdf k l sc x = invgamma_pdf1 (INR (fact k)) (INR (S k)) l sc x) /\
+  (forall (k : nat) (l sc a b : R), l < a -> a <= b ->
+  is_RInt (invgamma_int_pdf k l sc) a b (invgamma_int_cdf1 k l sc b - invgamma_int_cdf1 k l sc a)) /\
+  (forall ps : list (nat * R * R), Forall (fun p => 0 < snd p) ps ->
   (forall T, 1 < T ->
      is_box_int (fun xs => exp (invgamma_logpdf (map invgamma_int_g ps) (map invgamma_int_shape ps) (map (fun p => snd (fst p)) ps) (map snd ps) xs))
                 (invgamma_box T ps) (rprod (map (invgamma_mass1 T) ps))) /\
-  is_lim (fun T => rprod (map (invgamma_mass1 T) ps)) p_infty 1.
-Proof. intros ps H. split; [intros T HT; apply invgamma_int_box_mass; assumption | apply invgamma_int_box_normalised; exact H]. Qed.
+  is_lim (fun T => rprod (map (invgamma_mass1 T) ps)) p_infty 1).
+Proof.
+  split.
+  - exact invgamma_int_pdf_doc.
+  - split.
+    + exact invgamma_int_cdf_is_integral.
+    + intros ps H. split; [intros T HT; apply invgamma_int_box_mass; assumption | apply invgamma_int_box_normalised; exact H].
+Qed.
 Print Assumptions C04_invgamma_int_normalised_nd.
 
 (* Lognormal with diagonal covariance V, every n: by u_i = ln t_i the mass of prod [exp(-v), exp(v)] is the product of the Normal cdf
-   differences at +-v (FULL change-of-variables identity) *)
-Theorem C04_lognormal_box_mass : forall (V mean : list R) (v : R), 0 <= v ->
-  (length mean = 1%nat \/ length mean = length V) -> Forall (fun c => 0 < c) V ->
-  is_box_int (fun xs => exp (lognormal_logpdf (gauss_diag_logpdf FCov false (length xs) V mean (map ln xs)) xs))
-             (map (fun _ => (exp (- v), exp v)) V)
-             (rprod (map (fun p => normal_cdf1 (fst p, snd p, v) - normal_cdf1 (fst p, snd p, - v))
-                         (zip2 (bc (length V) mean) (map sqrt V)))).
-Proof. exact lognormal_box_mass. Qed.
-Print Assumptions C04_lognormal_box_mass.
+   differences at +-v (FULL change-of-variables identity): first part of C04_lognormal_normalised_nd below *)
 
 (* ---------- THE GAUSSIAN INTEGRAL and the normalisation of Normal / diagonal Gaussian / Lognormal (FULL, no hypothesis) ----------
    proved from Coquelicot's parametric integrals (Proofs/C04_GaussInt.v): (int_0^x e^(-t^2))^2 + int_0^1 e^(-x^2(1+t^2))/(1+t^2) = pi/4 *)
@@ -621,34 +606,85 @@ Theorem C04_gaussian_integral : is_lim (fun x => RInt (fun t => exp (- (t * t)))
 Proof. exact gI_lim. Qed.
 Print Assumptions C04_gaussian_integral.
 
-Theorem C04_normal_cdf_limits : forall m s : R, 0 < s ->
-  is_lim (fun u => normal_cdf1 (m, s, u)) p_infty 1 /\ is_lim (fun u => normal_cdf1 (m, s, u)) m_infty 0.
-Proof. exact normal_cdf1_limits. Qed.
-Print Assumptions C04_normal_cdf_limits.
 
-Theorem C04_normal_normalised : forall m s : R, 0 < s ->
-  is_lim (fun T => RInt (fun t => normal_pdf1 (m, s, t)) (m - T) (m + T)) p_infty 1.
-Proof. exact normal_normalised. Qed.
+Theorem C04_normal_normalised :
+  (forall m s : R, 0 < s ->
+  is_lim (fun u => normal_cdf1 (m, s, u)) p_infty 1 /\ is_lim (fun u => normal_cdf1 (m, s, u)) m_infty 0) /\
+  (forall m s : R, 0 < s ->
+  is_lim (fun T => RInt (fun t => normal_pdf1 (m, s, t)) (m - T) (m + T)) p_infty 1).
+Proof.
+  split.
+  - exact normal_cdf1_limits.
+  - exact normal_normalised.
+Qed.
 Print Assumptions C04_normal_normalised.
 
 (* every dimension, scalar-broadcast or vector mean / std: the mass (C04_normal_box_mass) of prod [mean_i - T, mean_i + T] tends to 1 *)
-Theorem C04_normal_normalised_nd : forall (mean std : list R) (n : nat), Forall (fun s => 0 < s) std ->
+Theorem C04_normal_normalised_nd :
+  (forall (mean std : list R) (box : list (R * R)),
+  (length mean = 1%nat \/ length mean = length box) -> (length std = 1%nat \/ length std = length box) ->
+  Forall (fun s => 0 < s) std ->
+  is_box_int (fun xs => exp (normal_logpdf mean std xs)) box
+    (rprod (map (ls_mass1 normal_cdf1) (combine (zip2 (bc (length box) mean) (bc (length box) std)) box)))) /\
+  (forall (mean std : list R) (n : nat), Forall (fun s => 0 < s) std ->
   is_lim (fun T => rprod (map (ls_mass1 normal_cdf1)
                               (combine (zip2 (bc n mean) (bc n std)) (centred_box2 T (zip2 (bc n mean) (bc n std))))))
-         p_infty 1.
-Proof. exact normal_centred_normalised. Qed.
+         p_infty 1).
+Proof.
+  split.
+  - exact normal_box_mass.
+  - exact normal_centred_normalised.
+Qed.
 Print Assumptions C04_normal_normalised_nd.
 
-Theorem C04_lognormal_normalised : forall m s : R, 0 < s ->
-  is_lim (fun v => RInt (lognormal_pdf1 m s) (exp (- v)) (exp v)) p_infty 1.
-Proof. exact lognormal_normalised. Qed.
-Print Assumptions C04_lognormal_normalised.
+(* the Gaussian in each of the four parameterisations f (cov = v, prec = 1/v, sqrtcov = sqrt v, sqrtprec = 1/sqrt v), vector / dense-diagonal /
+   sparse-diagonal storage (gauss_diag_logpdf f false) and scalar storage (gauss_diag_logpdf f true): exp(logpdf) integrates over every box to
+   the product of the Normal cdf differences with std = sqrt v -- the same number for all four f -- and over growing centred boxes to 1 *)
+
+
+Theorem C04_gaussian_diag_normalised_nd :
+  (forall (f : gform) (V mean : list R) (box : list (R * R)),
+  length V = length box -> (length mean = 1%nat \/ length mean = length box) -> Forall (fun v => 0 < v) V ->
+  is_box_int (fun xs => exp (gauss_diag_logpdf f false (length xs) (map (gparam f) V) mean xs)) box
+    (rprod (map (ls_mass1 normal_cdf1) (combine (zip2 (bc (length box) mean) (bc (length box) (map sqrt V))) box)))) /\
+  (forall (f : gform) (v : R) (mean : list R) (box : list (R * R)),
+  (length mean = 1%nat \/ length mean = length box) -> 0 < v ->
+  is_box_int (fun xs => exp (gauss_diag_logpdf f true (length xs) (gparam f v :: nil) mean xs)) box
+    (rprod (map (ls_mass1 normal_cdf1) (combine (zip2 (bc (length box) mean) (bc (length box) (sqrt v :: nil))) box)))) /\
+  (forall (V mean : list R) (n : nat), Forall (fun v => 0 < v) V ->
+  is_lim (fun T => rprod (map (ls_mass1 normal_cdf1)
+                              (combine (zip2 (bc n mean) (bc n (map sqrt V))) (centred_box2 T (zip2 (bc n mean) (bc n (map sqrt V)))))))
+         p_infty 1).
+Proof.
+  split.
+  - exact gauss_diag_box_mass.
+  - split.
+    + exact gauss_scalar_box_mass.
+    + exact gauss_diag_normalised.
+Qed.
+Print Assumptions C04_gaussian_diag_normalised_nd.
+
 
 (* the mass (C04_lognormal_box_mass) of prod [exp(-v), exp(v)] tends to 1, every dimension *)
-Theorem C04_lognormal_normalised_nd : forall V mean : list R, Forall (fun c => 0 < c) V ->
+Theorem C04_lognormal_normalised_nd :
+  (forall (V mean : list R) (v : R), 0 <= v ->
+  (length mean = 1%nat \/ length mean = length V) -> Forall (fun c => 0 < c) V ->
+  is_box_int (fun xs => exp (lognormal_logpdf (gauss_diag_logpdf FCov false (length xs) V mean (map ln xs)) xs))
+             (map (fun _ => (exp (- v), exp v)) V)
+             (rprod (map (fun p => normal_cdf1 (fst p, snd p, v) - normal_cdf1 (fst p, snd p, - v))
+                         (zip2 (bc (length V) mean) (map sqrt V))))) /\
+  (forall V mean : list R, Forall (fun c => 0 < c) V ->
   is_lim (fun v => rprod (map (fun p => normal_cdf1 (fst p, snd p, v) - normal_cdf1 (fst p, snd p, - v))
-                              (zip2 (bc (length V) mean) (map sqrt V)))) p_infty 1.
-Proof. exact lognormal_box_normalised. Qed.
+                              (zip2 (bc (length V) mean) (map sqrt V)))) p_infty 1) /\
+  (forall m s : R, 0 < s ->
+  is_lim (fun v => RInt (lognormal_pdf1 m s) (exp (- v)) (exp v)) p_infty 1).
+Proof.
+  split.
+  - exact lognormal_box_mass.
+  - split.
+    + exact lognormal_box_normalised.
+    + exact lognormal_normalised.
+Qed.
 Print Assumptions C04_lognormal_normalised_nd.
 
 (* the oracle law of C04_normal_cdf_erf_law is satisfiable: erf_R z = 2/sqrt(pi) int_0^z exp(-t^2) satisfies it, tends to 1, is odd *)
@@ -675,32 +711,54 @@ Qed.
    Normal.cdf (product of the 1-d cdfs, as the code computes it): the masses (C04_normal_box_mass) of the lower-orthant boxes prod [x_i - T, x_i]
    tend to it; same for the repaired Cauchy.cdf (the code's sum is the known finding); Gamma / Beta with integer shapes: the product of the 1-d
    cdfs IS the box integral of exp(logpdf) over prod (0, x_i) (FULL; non-integer shapes and the dense Gaussian cdf remain uncovered) *)
-Theorem C04_normal_cdf_nd : forall mean std xs : list R, Forall (fun s => 0 < s) std ->
+
+Theorem C04_locscale_cdf_nd :
+  (forall mean std xs : list R, Forall (fun s => 0 < s) std ->
   is_lim (fun T => rprod (map (ls_mass1 normal_cdf1) (combine (zip2 (bc (length xs) mean) (bc (length xs) std)) (lower_box T xs))))
-         p_infty (normal_cdf mean std xs).
-Proof. exact normal_cdf_nd. Qed.
-Print Assumptions C04_normal_cdf_nd.
-
-Theorem C04_cauchy_cdf_nd : forall loc scale xs : list R, Forall (fun s => 0 < s) scale ->
+         p_infty (normal_cdf mean std xs)) /\
+  (forall loc scale xs : list R, Forall (fun s => 0 < s) scale ->
   is_lim (fun T => rprod (map (ls_mass1 cauchy_cdf1) (combine (zip2 (bc (length xs) loc) (bc (length xs) scale)) (lower_box T xs))))
-         p_infty (cauchy_cdf true loc scale xs).
-Proof. exact cauchy_cdf_nd. Qed.
-Print Assumptions C04_cauchy_cdf_nd.
+         p_infty (cauchy_cdf true loc scale xs)).
+Proof.
+  split.
+  - exact normal_cdf_nd.
+  - exact cauchy_cdf_nd.
+Qed.
+Print Assumptions C04_locscale_cdf_nd.
 
-Theorem C04_gamma_int_cdf_nd : forall (ps : list (nat * R)) (xs : list R), length xs = length ps ->
+Theorem C04_gamma_int_normalised_nd :
+  (forall ps : list (nat * R), Forall (fun p => 0 < snd p) ps ->
+  (forall T, 0 < T ->
+     is_box_int (fun xs => exp (gamma_logpdf (map gamma_int_g ps) (map gamma_int_shape ps) (map snd ps) xs))
+                (map (fun _ => (0, T)) ps) (rprod (map (fun p => gamma_int_cdf1 (fst p) (snd p) T) ps))) /\
+  is_lim (fun T => rprod (map (fun p => gamma_int_cdf1 (fst p) (snd p) T) ps)) p_infty 1) /\
+  (forall (ps : list (nat * R)) (xs : list R), length xs = length ps ->
   Forall (fun p => 0 < snd p) ps -> Forall (fun x => 0 < x) xs ->
   is_box_int (fun ts => exp (gamma_logpdf (map gamma_int_g ps) (map gamma_int_shape ps) (map snd ps) ts))
-             (map (fun x => (0, x)) xs) (rprod (map (fun q => gamma_int_cdf1 (fst (fst q)) (snd (fst q)) (snd q)) (combine ps xs))).
-Proof. exact gamma_int_cdf_nd. Qed.
-Print Assumptions C04_gamma_int_cdf_nd.
+             (map (fun x => (0, x)) xs) (rprod (map (fun q => gamma_int_cdf1 (fst (fst q)) (snd (fst q)) (snd q)) (combine ps xs)))).
+Proof.
+  split.
+  - intros ps H. split; [intros T HT; apply gamma_int_box_mass; assumption | apply gamma_int_box_normalised; exact H].
+  - exact gamma_int_cdf_nd.
+Qed.
+Print Assumptions C04_gamma_int_normalised_nd.
 
-Theorem C04_beta_int_cdf_nd : forall (ps : list (nat * nat)) (xs : list R), length xs = length ps ->
+Theorem C04_beta_int_normalised_nd :
+  (forall ps : list (nat * nat),
+  is_box_int (fun xs => exp (beta_logpdf (map beta_int_ga ps) (map beta_int_gb ps) (map beta_int_gab ps)
+                                         (map beta_int_alpha ps) (map beta_int_beta ps) xs))
+             (map (fun _ => (0, 1)) ps) 1) /\
+  (forall (ps : list (nat * nat)) (xs : list R), length xs = length ps ->
   Forall (fun x => 0 < x <= 1) xs ->
   is_box_int (fun ts => exp (beta_logpdf (map beta_int_ga ps) (map beta_int_gb ps) (map beta_int_gab ps)
                                          (map beta_int_alpha ps) (map beta_int_beta ps) ts))
-             (map (fun x => (0, x)) xs) (rprod (map (fun q => beta_int_cdf1 (fst (fst q)) (snd (fst q)) (snd q)) (combine ps xs))).
-Proof. exact beta_int_cdf_nd. Qed.
-Print Assumptions C04_beta_int_cdf_nd.
+             (map (fun x => (0, x)) xs) (rprod (map (fun q => beta_int_cdf1 (fst (fst q)) (snd (fst q)) (snd q)) (combine ps xs)))).
+Proof.
+  split.
+  - exact beta_int_box_normalised.
+  - exact beta_int_cdf_nd.
+Qed.
+Print Assumptions C04_beta_int_normalised_nd.
 
 (* non-vacuity of the n-dimensional theorems: a 2-d Normal with scalar mean and vector std over a box, a 2-d Gamma (shapes 2 and 1),
    a 2-d Beta, a 1-d InverseGamma and a SmoothedLaplace instance satisfy the hypotheses *)
